@@ -91,6 +91,7 @@ def check(ctx):
     ctx.rule("R1", "every while loop reachable from Execer.parse has a recognised variant (budget / monotone index / stream consumer), and no for loop there grows the collection it iterates", floor=9)
     ctx.rule("R2", "the self-recursion of _parse_ctx_free is bounded: entered only when logical_input is false, and it passes logical_input=True", floor=2)
     ctx.rule("R3", "the recovery loop raises only the parser's own SyntaxError/IndentationError (no internal exception type is raised explicitly)", floor=5)
+    ctx.rule("R5", "every verdict of the open-triple-quote scanner comes out of its quote- and comment-aware scan (or is 'nothing open' when no marker occurs at all); the line joiners ask only the scanner", floor=4)
     ctx.rule("R4", "the line returned by tools.subproc_toks is built only from slices of the source line and the literals '![' and ']'", floor=3)
 
     mods = [ctx.repo.module(x) for x in (EX, TL, AS, LX)]
@@ -293,6 +294,62 @@ def check(ctx):
         ctx.ob("R4", f"{rel}:{q}", "command text is wrapped through tools.subproc_toks (one wrapper for phase 1 and phase 2)", ok, key=f"{q}|wrapper-not-used")
 
 
+    # ------------------------------------------------------------------ R5
+    # logical-line joining asks one lexical question — "is a triple-quoted string open at the end
+    # of this text?" — and only a left-to-right scan that knows comments, ordinary strings and the
+    # other triple kind can answer it: a marker inside any of those is dead text.  Every verdict of
+    # the scanner must therefore come out of the scan; the only sound answer without scanning is
+    # "nothing is open" when no marker of either kind occurs at all.
+    from ..engine.cfg import facts_at as _facts_at
+
+    sc = tl.func("_have_open_triple_quotes")
+    param = sc.args.args[0].arg
+    scfg = CFG(sc)
+    top_loops = [st for st in sc.body if isinstance(st, ast.While)]
+    if len(top_loops) != 1:
+        raise AnalysisError(f"{TL}:_have_open_triple_quotes: expected one scanning loop at the top level, found {len(top_loops)}")
+    head = scfg.nodes_of(top_loops[0])
+    n_ret5 = 0
+    for r in (x for x in walk_local(sc) if isinstance(x, ast.Return)):
+        n_ret5 += 1
+        if lexically_inside(r, top_loops[0]):
+            ok, why = True, "inside the scan"
+        else:
+            rn = scfg.nodes_of(r)
+            if rn and all(scfg.dominated(x, lambda m: m in head) for x in rn):
+                ok, why = True, "after the scan"
+            else:
+                from ..engine.dtable import normalise as _norm
+
+                facts = [(unparse(e2), p2) for x in rn for e, pol in _facts_at(scfg, x) for e2, p2 in [_norm(e, pol)]]
+                absent = {t for t, pol in facts if not pol}
+                dq = any(t in absent for t in (f"'\"' in {param}", f"'\"\"\"' in {param}"))
+                sq = any(t in absent for t in (f'"\'" in {param}', f'"\'\'\'" in {param}'))
+                falsy = r.value is None or (isinstance(r.value, ast.Constant) and not r.value.value)
+                ok, why = (dq and sq and falsy), "before the scan"
+        ctx.ob(
+            "R5",
+            f"{TL}:_have_open_triple_quotes",
+            f"`{short(r)}` ({why}) is a verdict of the quote- and comment-aware scan, or 'nothing open' when no quote marker of either kind occurs (counting or searching markers without context is wrong: a marker in a comment or inside another string is dead)",
+            ok,
+            key=f"open-triple|verdict-without-scan|{why}",
+            where=loc(r),
+        )
+    if n_ret5 < 2:
+        raise AnalysisError(f"{TL}:_have_open_triple_quotes: only {n_ret5} returns")
+    # context-free marker arithmetic on the scanned text decides nothing
+    for c in calls_in(sc):
+        if isinstance(c.func, ast.Attribute) and c.func.attr in ("count", "rfind", "rindex", "index") and unparse(c.func.value) == param:
+            ctx.ob("R5", f"{TL}:_have_open_triple_quotes", f"`{short(c)}`: no context-free counting/searching of markers in the scanned text", False, key=f"open-triple|context-free|{c.func.attr}", where=loc(c))
+    # the consumers ask the scanner (no private marker counting in the joiners)
+    for q, fn in tl.functions():
+        if q in ("_have_open_triple_quotes",):
+            continue
+        if any(call_name(c) == "_have_open_triple_quotes" for c in calls_in(fn)):
+            bad = [c for c in calls_in(fn) if isinstance(c.func, ast.Attribute) and c.func.attr == "count" and c.args and isinstance(const_value(c.args[0]), str) and const_value(c.args[0]) in ('"""', "'''")]
+            ctx.ob("R5", f"{TL}:{q}", "the joiner decides 'inside a triple-quoted string' through the scanner only (no private marker counting)", not bad, key=f"{q}|private-marker-count", where=loc(bad[0]) if bad else loc(fn))
+
+
 META = {
     "technique": "static analysis: call-graph reachability from Execer.parse, loop-variant catalogue checked by CFG cycle queries (no cycle through the loop head without a progress statement), guard facts on the recursion, raise-provenance, string-provenance of the wrapper",
     "text": "Termination 'for all input strings whatsoever' is attacked at the only place it can be decided "
@@ -302,7 +359,9 @@ META = {
     "statement; an unclassified new loop is itself a finding; for-loops must not grow their iterable; the "
     "self-recursion is entered only with logical_input false and passes True; every explicit raise re-raises a "
     "SyntaxError/IndentationError the parser reported; the wrapped line is source slices plus '![' and ']' only, "
-    "and both phases use that one wrapper. Hangs like GH-5839/GH-6011 were exactly missing-progress cycles. "
+    "and both phases use that one wrapper; every verdict of the open-triple-quote scanner that logical-line joining "
+    "relies on is produced inside or after its quote- and comment-aware scan (the only accepted shortcut is 'no "
+    "marker of either kind occurs'), and the joiners count no markers themselves. Hangs like GH-5839/GH-6011 were exactly missing-progress cycles. "
     "Whether the chosen window is right for every line is value-level and not decided.",
     "note": "Decides the listed structural clauses, not the behaviour. Companion facts for two non-trivial progress "
     "assignments are frozen in the catalogue with their reason. PLY and the tokenizer are trusted.",
